@@ -568,3 +568,45 @@ def _loc_placement(repo, ob, failure):
         if any(abs(got.get(k, 1e9) - v) > 0.002 for k, v in want.items()):
             return {"input": doc, "observed": "%r" % got, "expected": "%r" % want}
     return None
+
+
+@generator("C13.corner.")
+def _corner_connectors(repo, ob, failure):
+    """corner polylines: axis-parallel segments, leaving the start edge outward and entering the end edge from outside"""
+    import re as _re
+    boxes = {"a": (0.0, 0.0, 10.0, 10.0), "b": (30.0, 25.0, 14.0, 8.0)}
+    out_dir = {"t": (0, -1), "b": (0, 1), "l": (-1, 0), "r": (1, 0)}
+
+    def loc(bx, l):
+        x, y, w, h = bx
+        return {"t": (x + w / 2, y), "b": (x + w / 2, y + h), "l": (x, y + h / 2), "r": (x + w, y + h / 2)}[l]
+    for sl in "tblr":
+        for el in "tblr":
+            for order in (("a", "b"), ("b", "a")):
+                doc = ('<svg><rect id="a" xy="0 0" wh="10 10"/><rect id="b" xy="30 25" wh="14 8"/>'
+                       '<polyline id="c" start="#%s@%s" end="#%s@%s"/></svg>' % (order[0], sl, order[1], el))
+                r = run_svgdx(repo, doc)
+                if r["rc"] != 0:
+                    continue
+                m = _re.search(r'<polyline id="c"[^>]*points="([^"]*)"', r["out"])
+                if not m:
+                    continue
+                pts = [tuple(float(v) for v in p.split()) for p in m.group(1).split(",")]
+                want_s, want_e = loc(boxes[order[0]], sl), loc(boxes[order[1]], el)
+                bad = None
+                if abs(pts[0][0] - want_s[0]) > 0.002 or abs(pts[0][1] - want_s[1]) > 0.002 or abs(pts[-1][0] - want_e[0]) > 0.002 or abs(pts[-1][1] - want_e[1]) > 0.002:
+                    bad = "endpoints %r .. %r, expected %r .. %r" % (pts[0], pts[-1], want_s, want_e)
+                elif any(abs(p[0] - q[0]) > 0.002 and abs(p[1] - q[1]) > 0.002 for p, q in zip(pts, pts[1:])):
+                    bad = "a segment is not axis-parallel: %r" % (pts,)
+                else:
+                    d0 = (pts[1][0] - pts[0][0], pts[1][1] - pts[0][1])
+                    d1 = (pts[-2][0] - pts[-1][0], pts[-2][1] - pts[-1][1])
+                    os_, oe = out_dir[sl], out_dir[el]
+                    # (only same-side "U" connectors must step outward; an opposite-side "Z" goes to the midline wherever it is)
+                    if sl == el and d0[0] * os_[0] + d0[1] * os_[1] <= 0:
+                        bad = "first segment does not leave the %s edge outward: %r" % (sl, pts)
+                    elif sl == el and d1[0] * oe[0] + d1[1] * oe[1] <= 0:
+                        bad = "last segment does not enter the %s edge from outside: %r" % (el, pts)
+                if bad:
+                    return {"input": doc, "observed": bad, "expected": "rectilinear polyline between the named locations, perpendicular and outward at both ends"}
+    return None
